@@ -213,8 +213,55 @@ def fault_part(ctx):
     ctx.sample({'program': describe(progs[0]), 'placements': [fr.faults_json(f) for f in fr.all_placements(progs[0], pairs=False)[:8]]})
 
 
+def async_dead_flusher(ctx):
+    """Asynchronous cassette whose background thread is gone (killed by a storage error that derives from BaseException; the same
+    state a worker forked from a pre-fork master is in): recordings are lost, the recorded service must not notice."""
+    import threading
+    import time
+    from playback.tape_recorder import TapeRecorder
+    from playback.tape_cassettes.in_memory.in_memory_tape_cassette import InMemoryTapeCassette
+    from playback.tape_cassettes.asynchronous.async_record_only_tape_cassette import AsyncRecordOnlyTapeCassette
+    from vlib.spies import SpyCassette, SpyRandom
+    from vlib.values import InterruptLike
+
+    class TimingOutStorage(InMemoryTapeCassette):
+        def _save_recording(self, recording):
+            raise InterruptLike('storage client gave up (not an Exception subclass)')
+    hook = threading.excepthook
+    threading.excepthook = lambda args: None          # the dying flusher's traceback is expected here
+    try:
+        for prog in fr.base_programs(ctx.seed + 31, 3 if ctx.quick else 25):
+            a = AsyncRecordOnlyTapeCassette(TimingOutStorage(), flush_interval=0.002, timeout_on_close=1)
+            a.start()
+            spy = SpyCassette(a)
+            rec = TapeRecorder(spy)
+            rec._random = SpyRandom(5)
+            rec.enable_recording()
+            fr.execute(prog, {}, recorder=rec, spy=spy, box=None)
+            t0 = time.time()
+            th = getattr(a, '_update_recording_thread', None)
+            while th is not None and th.is_alive() and time.time() - t0 < 5:
+                time.sleep(0.005)
+            if th is None or th.is_alive():
+                ctx.count('flusher_not_killed')        # (no such thread / it survived: nothing to observe)
+                continue
+            res = fr.execute(prog, {}, recorder=rec, spy=spy, box=None)
+            w = {'gen_seed': prog['gen_seed'], 'program': describe(prog), 'faults': [], 'config': 'asynchronous cassette whose background thread died'}
+            ctx.case({'p': prog['gen_seed'], 'c': 'dead flusher'})
+            ctx.count('runs_with_a_dead_flusher')
+            ctx.count('calls_compared', compare_with_twin(ctx, res, w))
+            try:
+                a.close()
+            except BaseException:  # noqa
+                pass
+    finally:
+        threading.excepthook = hook
+
+
 def run(ctx):
     fault_part(ctx)
+    if ctx.shard == 0:
+        async_dead_flusher(ctx)
     try:
         from checks import C04_sched
     except ImportError:
